@@ -315,5 +315,134 @@ def r06_4(ctx):
     return r
 
 
+import re as _re
+
+HVI = "transports::ice::stun::StunDecoded::has_valid_integrity"
+
+
+def _unsized_array_len(b, op):
+    """the operand of an `.iter()` call: if it is the unsize coercion of a reference to a fixed-size byte array, its length"""
+    if not (isinstance(op, dict) and "p" in op and "p" not in op["p"]):
+        return None
+    l = op["p"]["l"]
+    for bi, si, st in b.assigns():
+        if st["p"]["l"] == l and "p" not in st["p"] and st["rv"]["r"] == "cast" and str(st["rv"].get("ck", "")).startswith("PointerCoercion(Unsize"):
+            o = st["rv"]["o"]
+            if "p" in o and "p" not in o["p"]:
+                m = _re.search(r"\[u8; (\d+)\]", b.locals[o["p"]["l"]]["ty"])
+                if m:
+                    return int(m.group(1))
+    return None
+
+
+def r06_5(ctx):
+    """the credential check itself: has_valid_integrity compares the received MESSAGE-INTEGRITY value with the HMAC it
+    computes. `zip` stops at the shorter operand, so the comparison is only a comparison if both operands have the
+    same length: two fixed-size arrays of equal size, or an explicit length test. A received value kept 'as is'
+    (a Vec of whatever length the attribute had) makes a zero-length MESSAGE-INTEGRITY equal to every HMAC."""
+    r = RuleResult("R06.5", "K6", "the MESSAGE-INTEGRITY comparison covers all 20 bytes of both operands")
+    b = ctx.body(HVI)
+    r.scope.append(HVI)
+    zips = [(bi, t) for bi, t, p in b.calls() if p and p.endswith("Iterator::zip") and bi not in b.cleanup]
+    if not zips:
+        raise core.CheckerError("R06.5: has_valid_integrity has no zip pairing - comparison shape not recognised")
+    iters = {}
+    for bi, t, p in b.calls():
+        if p and p.endswith("::iter") and t["a"] and "p" not in t["dst"]:
+            iters[t["dst"]["l"]] = t["a"][0]
+    for bi, t in zips:
+        ta, tb = b.term_operand(t["a"][0]), b.term_operand(t["a"][1])
+        computed = [x for x in (ta, tb) if mir.has(x, lambda y: y[0] == "call" and y[1].endswith("stun::hmac_sha1"))]
+        received = [x for x in (ta, tb) if mir.has(x, lambda y: y[0] == "field" and y[2] == "integrity")
+                    and not mir.has(x, lambda y: y[0] == "call" and y[1].endswith("stun::hmac_sha1"))]
+        if len(computed) != 1 or len(received) != 1 or computed[0] is received[0]:
+            r.violate(HVI, "mi:pairing", b.where(bi), "the comparison does not pair the computed HMAC with the received MESSAGE-INTEGRITY value")
+            continue
+        lens = []
+        for a in t["a"][:2]:
+            src = iters.get(a["p"]["l"]) if "p" in a and "p" not in a["p"] else None
+            lens.append(_unsized_array_len(b, src) if src is not None else None)
+        def len_test(term, meaning, *_):
+            return term[0] == "bin" and term[1] in ("Eq", "Ne") and all(x[0] == "call" and x[1].endswith("::len") for x in (term[2], term[3])) \
+                and isinstance(meaning, bool) and (meaning is (term[1] == "Eq"))
+        g = core.guard_edges(b, len_test)
+        if lens[0] is not None and lens[0] == lens[1]:
+            r.ok({"site": b.where(bi), "operands": "two [u8; %d] arrays" % lens[0]})
+        elif g and core.k1(b, [bi], g)[bi] is None:
+            r.ok({"site": b.where(bi), "operands": "lengths compared before the bytewise comparison"})
+        else:
+            r.violate(HVI, "mi:length", b.where(bi),
+                      "the bytewise comparison runs over operands of lengths %s without a length test: zip stops at the shorter one, so a "
+                      "truncated (even empty) MESSAGE-INTEGRITY value equals any HMAC" % lens)
+    rets = b.var_def_terms(0)
+    if all((t[0] == "bin" and t[1] == "Eq" and mir.int_value(t[3]) == 0) or mir.int_value(t) == 0 for t in rets):
+        r.ok({"verdict": "false, or accumulated difference == 0"})
+    else:
+        r.violate(HVI, "mi:verdict", b.where(0), "has_valid_integrity can return true other than through `difference == 0`")
+    return r
+
+
+DEC_STUN = "transports::ice::stun::decode_stun_message"
+
+
+def r06_6(ctx):
+    """RFC 5389 15.4: attributes that follow MESSAGE-INTEGRITY (other than FINGERPRINT) are not covered by it and
+    MUST be ignored. If the decoder keeps interpreting them, anyone can append USE-CANDIDATE (or a different USERNAME)
+    to a captured genuine check, fix the length field, and have an 'authenticated' request do something its sender
+    never signed. So: the attribute dispatch of decode_stun_message interprets an attribute only while no
+    MESSAGE-INTEGRITY has been seen - the dispatch is cut by the `integrity is None` edge, or its discriminant is the
+    wire type only on that edge and otherwise a constant that no arm handles."""
+    r = RuleResult("R06.6", "K1", "the STUN decoder interprets no attribute that follows MESSAGE-INTEGRITY")
+    d = ctx.body(DEC_STUN)
+    r.scope.append(DEC_STUN)
+
+    def none_yet(term, meaning, *_):
+        t, neg = term, False
+        while t[0] == "un" and t[1] == "Not":
+            t, neg = t[2], not neg
+        if t[0] == "call" and t[1].endswith(("Option::<T>::is_some", "Option::<T>::is_none")) and isinstance(meaning, bool) and \
+                mir.has(t, lambda x: x[0] == "var" and x[1] == "integrity"):
+            return (meaning != neg) == t[1].endswith("is_none")
+        if t[0] == "discr" and meaning == "None" and mir.has(t[1], lambda x: x[0] == "var" and x[1] == "integrity"):
+            return True
+        return False
+    g = core.guard_edges(d, none_yet)
+    sw = None
+    for bi, blk in enumerate(d.blocks):
+        if bi in d.cleanup or blk["t"]["k"] != "switch":
+            continue
+        term, regions = core.arm_regions(d, bi)
+        vals = {k for k in regions if isinstance(k, int)}
+        if {0x0020, 0x0025} <= vals:
+            sw = (bi, term, vals)
+    if sw is None:
+        raise core.CheckerError("R06.6: attribute dispatch of decode_stun_message not found")
+    bi, term, vals = sw
+    if not g:
+        r.violate(DEC_STUN, "after-mi", d.where(bi), "the decoder never asks whether MESSAGE-INTEGRITY was already seen: attributes appended behind it are interpreted")
+        return r
+    if core.k1(d, [bi], g)[bi] is None:
+        r.ok({"dispatch": d.where(bi), "cut_by": "integrity is None"})
+        return r
+    alts = d.var_def_terms(term[2]) if term[0] == "var" and len(term) > 2 else [term]
+    defs = d.defs().get(term[2], []) if term[0] == "var" and len(term) > 2 else []
+    bad = None
+    for dd, dt in zip(defs, alts):
+        iv = mir.int_value(dt)
+        if iv is not None:
+            if iv in vals:
+                bad = "after MESSAGE-INTEGRITY the dispatch value is the constant %s, which an arm handles" % hex(iv)
+        else:
+            if core.k1(d, [dd[1]], g)[dd[1]] is not None:
+                bad = "the wire attribute type reaches the dispatch also after MESSAGE-INTEGRITY was seen"
+    if not defs:
+        bad = "the dispatch switches on the wire attribute type on every path"
+    if bad:
+        r.violate(DEC_STUN, "after-mi", d.where(bi), bad + ": attributes appended behind MESSAGE-INTEGRITY (USE-CANDIDATE, USERNAME ...) are interpreted although nothing authenticates them")
+    else:
+        r.ok({"dispatch": d.where(bi), "discriminant": "wire type only while integrity is None, otherwise a constant no arm handles"})
+    return r
+
+
 def run(ctx):
-    return [r06_1(ctx), r06_2(ctx), r06_3(ctx), r06_4(ctx)]
+    return [r06_1(ctx), r06_2(ctx), r06_3(ctx), r06_4(ctx), r06_5(ctx), r06_6(ctx)]
